@@ -72,6 +72,13 @@ def gen_immediate(rng):
             if rng.random() < 0.6:
                 lines.append("client connecting")
                 lines.append("frame %d" % rng.choice([0, 16]))
+                # written while CONNECTING: neither sent nor handled locally (kept, then discarded when the connection comes up)
+                for _ in range(rng.randrange(0, 3)):
+                    seq += 1
+                    ty = rng.choice(["ce", "ct"])
+                    lines.append("emit %s %d" % (ty, seq))
+                    expect[seq] = dict(kind=ty, full=True, status="connecting", running=False)
+                    lines.append("frame %d" % rng.choice([0, 16]))
             lines.append("client connected")
             status = "connected"
             lines.append("frame %d" % rng.choice([0, 16]))
@@ -99,8 +106,13 @@ def oracle(lines, impl, expect):
     counts = {}
     status, full = "disconnected", True
     problems = []
+    emitted_at, last_disconnect = {}, -1
     for i, (l, blk) in enumerate(zip(lines, impl)):
         t = l.split()
+        if t[0] in ("emit", "emitnow") and t[1] in ("ce", "ct") and t[-1].isdigit():
+            emitted_at[int(t[-1])] = i
+        if t[0] == "client" and len(t) > 1 and t[1] == "disconnected":
+            last_disconnect = i
         if t[0] == "cfg":
             full = t[1] != "plugins=noclient"
             status = "disconnected"
@@ -115,6 +127,9 @@ def oracle(lines, impl, expect):
                 name, sq = f[1].split("@")[0].split(":")
                 counts.setdefault(int(sq), {}).setdefault(f[0], 0)
                 counts[int(sq)][f[0]] += 1
+                ex_ = expect.get(int(sq)) if sq.isdigit() else None
+                if f[0] == "from" and ex_ and ex_.get("status") == "connecting" and last_disconnect < emitted_at.get(int(sq), -1):
+                    problems.append(dict(step_index=i, step=l, why="event %s was written while the client was CONNECTING and is handled locally although the connection attempt has not failed" % sq))
                 if f[0] == "from" and not f[1].endswith("@S"):
                     problems.append(dict(step_index=i, step=l, why="locally re-emitted event carries sender %s instead of the local server identity" % f[1]))
                 if f[0] == "net-c2s" and status != "connected":
